@@ -38,6 +38,36 @@ class SSP(Sym):
     def sym_truth(self, ex):
         return SP_NONEMPTY(self.e)       # a mapping is falsy iff it is empty
 
+    def sym_getattr(self, ex, name):
+        if name == "values":
+            return NativeStub(lambda: SSPValues(self), "mapping.values")
+        raise Unsupported(f"mapping.{name} on a state point value")
+
+
+class SSPValues(Sym):
+    def __init__(self, sp):
+        self.sp = sp
+
+
+class SValuesTest(Sym):
+    """(isinstance(v, T) for v in sp.values()): only any() / all() of it are supported, as predicates of the state point value"""
+
+    def __init__(self, sp, types):
+        self.sp, self.types = sp, types
+
+    def sym_any_all(self, ex, is_any):
+        names = ",".join(sorted(t.__name__ for t in self.types))
+        ex.assumptions_used.add("top-level values of a state point: SOME_TOP_VALUE_IS[T](sp) / EVERY_TOP_VALUE_IS[T](sp) are predicates of the value; a plain dict/list value is a nested mutable container, "
+                                "but not every nested mutable container is a plain dict/list (synced collections, tuples holding lists, other mappings)")
+        some = z3.Function(f"SOME_TOP_VALUE_IS[{names}]", SPv, z3.BoolSort())
+        every = z3.Function(f"EVERY_TOP_VALUE_IS[{names}]", SPv, z3.BoolSort())
+        if set(self.types) <= {dict, list}:
+            ex.assume(z3.Implies(some(self.sp.e), HAS_NESTED_MUTABLE(self.sp.e)))
+        return SBool(some(self.sp.e) if is_any else every(self.sp.e))
+
+
+HAS_NESTED_MUTABLE = z3.Function("HAS_NESTED_MUTABLE", SPv, z3.BoolSort())     # some nested value can be mutated in place through a reference to it
+
 
 SP_NONEMPTY = z3.Function("sp_nonempty", SPv, z3.BoolSort())
 
@@ -241,6 +271,18 @@ class JobCtx(FSModel, Ctx):
     # ---- [x for x in <ids> if c(x)]: the sub-collection as a predicate (c must be branch-free)
     def comprehension(self, interp, node, frame):
         import ast
+        if isinstance(node, ast.GeneratorExp) and len(node.generators) == 1:
+            g = node.generators[0]
+            e = node.elt
+            if (isinstance(g.target, ast.Name) and not g.ifs and isinstance(g.iter, ast.Call) and isinstance(g.iter.func, ast.Attribute) and g.iter.func.attr == "values"
+                    and isinstance(g.iter.func.value, ast.Name) and isinstance(e, ast.Call) and isinstance(e.func, ast.Name) and e.func.id == "isinstance" and len(e.args) == 2
+                    and isinstance(e.args[0], ast.Name) and e.args[0].id == g.target.id):
+                src = interp.ev(g.iter.func.value, frame)
+                if isinstance(src, SSP):
+                    t = interp.ev(e.args[1], frame)
+                    t = t if isinstance(t, tuple) else (t,)
+                    if all(isinstance(x, type) for x in t):
+                        return SValuesTest(src, t)
         if isinstance(node, ast.ListComp) and len(node.generators) == 1:
             g = node.generators[0]
             if isinstance(g.target, ast.Name) and isinstance(node.elt, ast.Name) and node.elt.id == g.target.id and len(g.ifs) == 1 and not g.is_async and isinstance(g.iter, (ast.Name, ast.Attribute)):
@@ -332,7 +374,10 @@ class JobCtx(FSModel, Ctx):
             self.fault(interp, "read")
         d = Node.data(self.fs.node(loc))
         if not ex.decide(jsonok(d), "load:json-ok"):
-            raise RaiseSignal(json.JSONDecodeError("x", "", 0))
+            # not a JSON text: either the bytes are not even UTF-8 (UnicodeDecodeError, a ValueError) or they do not parse (JSONDecodeError)
+            if ex.decide(None, "load:bytes-are-utf8"):
+                raise RaiseSignal(json.JSONDecodeError("x", "", 0))
+            raise RaiseSignal(UnicodeDecodeError("utf-8", b"\xff", 0, 1, "invalid start byte"))
         return SSP(parsed(d))
 
     def dep_save(self, interp, o):
@@ -533,3 +578,15 @@ def _native_override(self, interp, f, args, kw):
 
 
 JobCtx.native_override = _native_override
+
+
+def _dictify_sp(self, interp, v):
+    """dict(mapping): a new top-level mapping that SHARES every nested list / mapping with its argument (shallow copy)"""
+    if isinstance(v, SSP):
+        r = SSP(v.e)
+        r.shares_nested_with = getattr(v, "shares_nested_with", None) or v
+        return r
+    return Ctx.dictify(self, interp, v)
+
+
+JobCtx.dictify = _dictify_sp
